@@ -11,7 +11,7 @@ use swc_core::{
         ast::*,
         atoms::Atom,
         utils::{private_ident, quote_ident, quote_str},
-        visit::{VisitMut, VisitMutWith},
+        visit::{Visit, VisitMut, VisitMutWith, VisitWith},
     },
     plugin::errors::HANDLER,
 };
@@ -58,6 +58,70 @@ where
 
     assignment_left: Option<Ident>,
     injecting_consts: Vec<VarDeclarator>,
+}
+
+/// Collects, before the transform runs, what type resolution looks up by name:
+/// interface and type alias declarations, and the `defineComponent` import.
+/// Declarations are hoisted in TypeScript, so they must be known no matter
+/// whether they come before or after the `defineComponent` call.
+#[derive(Default)]
+struct DeclarationCollector {
+    resolve_type: bool,
+    define_component: Option<SyntaxContext>,
+    interfaces: FnvHashMap<(Atom, SyntaxContext), TsInterfaceDecl>,
+    type_aliases: FnvHashMap<(Atom, SyntaxContext), TsType>,
+}
+
+impl Visit for DeclarationCollector {
+    fn visit_import_decl(&mut self, import_decl: &ImportDecl) {
+        if import_decl.src.value != "vue" {
+            return;
+        }
+
+        let ctxt = import_decl.specifiers.iter().find_map(|specifier| {
+            if let ImportSpecifier::Named(ImportNamedSpecifier {
+                local,
+                imported: None,
+                ..
+            }) = specifier
+            {
+                (local.sym == "defineComponent").then_some(local.ctxt)
+            } else {
+                None
+            }
+        });
+        if let Some(ctxt) = ctxt {
+            self.define_component = Some(ctxt);
+        }
+    }
+
+    fn visit_ts_interface_decl(&mut self, ts_interface_decl: &TsInterfaceDecl) {
+        ts_interface_decl.visit_children_with(self);
+        if self.resolve_type {
+            let key = (ts_interface_decl.id.sym.clone(), ts_interface_decl.id.ctxt);
+            if let Some(interface) = self.interfaces.get_mut(&key) {
+                interface
+                    .body
+                    .body
+                    .extend_from_slice(&ts_interface_decl.body.body);
+            } else {
+                self.interfaces.insert(key, ts_interface_decl.clone());
+            }
+        }
+    }
+
+    fn visit_ts_type_alias_decl(&mut self, ts_type_alias_decl: &TsTypeAliasDecl) {
+        ts_type_alias_decl.visit_children_with(self);
+        if self.resolve_type {
+            self.type_aliases.insert(
+                (
+                    ts_type_alias_decl.id.sym.clone(),
+                    ts_type_alias_decl.id.ctxt,
+                ),
+                (*ts_type_alias_decl.type_ann).clone(),
+            );
+        }
+    }
 }
 
 impl<C> VueJsxTransformVisitor<C>
@@ -1159,6 +1223,15 @@ where
             .iter()
             .for_each(|item| self.search_jsx_pragma(item.span()));
 
+        let mut declarations = DeclarationCollector {
+            resolve_type: self.options.resolve_type,
+            ..Default::default()
+        };
+        module.visit_with(&mut declarations);
+        self.define_component = declarations.define_component;
+        self.interfaces = declarations.interfaces;
+        self.type_aliases = declarations.type_aliases;
+
         module.visit_mut_children_with(self);
 
         if !self.injecting_consts.is_empty() {
@@ -1405,58 +1478,6 @@ where
         jsx_opening_element
             .attrs
             .splice(index..index, util::decouple_v_models(elems));
-    }
-
-    fn visit_mut_import_decl(&mut self, import_decl: &mut ImportDecl) {
-        import_decl.visit_mut_children_with(self);
-
-        if import_decl.src.value != "vue" {
-            return;
-        }
-
-        let ctxt = import_decl.specifiers.iter().find_map(|specifier| {
-            if let ImportSpecifier::Named(ImportNamedSpecifier {
-                local,
-                imported: None,
-                ..
-            }) = specifier
-            {
-                (local.sym == "defineComponent").then_some(local.ctxt)
-            } else {
-                None
-            }
-        });
-        if let Some(ctxt) = ctxt {
-            self.define_component = Some(ctxt);
-        }
-    }
-
-    fn visit_mut_ts_interface_decl(&mut self, ts_interface_decl: &mut TsInterfaceDecl) {
-        ts_interface_decl.visit_mut_children_with(self);
-        if self.options.resolve_type {
-            let key = (ts_interface_decl.id.sym.clone(), ts_interface_decl.id.ctxt);
-            if let Some(interface) = self.interfaces.get_mut(&key) {
-                interface
-                    .body
-                    .body
-                    .extend_from_slice(&ts_interface_decl.body.body);
-            } else {
-                self.interfaces.insert(key, ts_interface_decl.clone());
-            }
-        }
-    }
-
-    fn visit_mut_ts_type_alias_decl(&mut self, ts_type_alias_decl: &mut TsTypeAliasDecl) {
-        ts_type_alias_decl.visit_mut_children_with(self);
-        if self.options.resolve_type {
-            self.type_aliases.insert(
-                (
-                    ts_type_alias_decl.id.sym.clone(),
-                    ts_type_alias_decl.id.ctxt,
-                ),
-                (*ts_type_alias_decl.type_ann).clone(),
-            );
-        }
     }
 
     fn visit_mut_call_expr(&mut self, call_expr: &mut CallExpr) {
